@@ -7,6 +7,8 @@
 // entity of the addressed kind.  If the call throws, the full observation taken through fresh handles must be identical
 // to the one before the call, in the same session and after close + reopen.
 #include <nix.hpp>
+#include <boost/multi_array.hpp>
+#include <nix/hydra/multiArray.hpp>
 #include "vf.hpp"
 #include "obs.hpp"
 #include "ops.hpp"
@@ -179,10 +181,19 @@ static std::vector<Rej> catalogue() {
     add("DataArray::appendAliasRangeDimension(array that has dimensions)", [](File &f) { arrayWhere(f, [](DataArray &a) { return a.dataExtent().size() == 1 && data_type_is_numeric(a.dataType()) && a.dimensionCount() > 0; }).appendAliasRangeDimension(); });
     add("DataArray::appendDataFrameDimension(column out of range)", [](File &f) { A0(f).appendDataFrameDimension(F0(f), 99u); });
     add("DataArray::appendDataFrameDimension(unknown column name)", [](File &f) { A0(f).appendDataFrameDimension(F0(f), "no_such_column"); });
+    add("DataArray::appendDataFrameDimension(frame of another block)", [](File &f) { Block o = B1(f); need(o.dataFrameCount() > 0); A0(f).appendDataFrameDimension(o.getDataFrame(0)); });
+    add("DataArray::appendDataFrameDimension(frame of another block, column index)", [](File &f) { Block o = B1(f); need(o.dataFrameCount() > 0); A0(f).appendDataFrameDimension(o.getDataFrame(0), 0u); });
+    add("DataArray::appendDataFrameDimension(frame of another block, column name)", [](File &f) { Block o = B1(f); need(o.dataFrameCount() > 0); DataFrame d = o.getDataFrame(0); A0(f).appendDataFrameDimension(d, d.columns()[0].name); });
     add("DataArray::appendDataFrameDimension(uninitialised frame)", [](File &f) { A0(f).appendDataFrameDimension(DataFrame()); });
 
     // ---- data I/O that must be refused ----
     add("DataArray::setData(offset outside the extent)", [](File &f) { DataArray a = arrayWhere(f, [](DataArray &x) { return x.dataType() == DataType::Double && x.dataExtent().size() == 1; }); double v = 1; a.setData(DataType::Double, &v, NDSize({1}), NDSize({a.dataExtent()[0] + 5})); });
+    add("DataArray::setData(whole-array value, strings into a numeric array, longer)", [](File &f) { DataArray a = arrayWhere(f, [](DataArray &x) { return x.dataType() == DataType::Double && x.dataExtent().size() == 1; }); std::vector<std::string> v(a.dataExtent()[0] + 2, "x"); a.setData(v); });
+    add("DataArray::setData(whole-array value, strings into a numeric array, shorter)", [](File &f) { DataArray a = arrayWhere(f, [](DataArray &x) { return x.dataType() == DataType::Double && x.dataExtent().size() == 1 && x.dataExtent()[0] > 1; }); std::vector<std::string> v(1, "x"); a.setData(v); });
+    add("DataArray::setData(whole-array value, numbers into a String array)", [](File &f) { DataArray a = arrayWhere(f, [](DataArray &x) { return x.dataType() == DataType::String && x.dataExtent().size() == 1; }); std::vector<double> v(a.dataExtent()[0] + 1, 1.5); a.setData(v); });
+    add("DataArray::setData(whole-array value of another rank)", [](File &f) { DataArray a = arrayWhere(f, [](DataArray &x) { return x.dataType() == DataType::Double && x.dataExtent().size() == 1; }); boost::multi_array<double, 2> m(boost::extents[2][2]); a.setData(m); });
+    add("Block::createDataArray(typed value overload, strings stored as Double)", [](File &f) { B0(f).createDataArray("fresh_a", "t", std::vector<std::string>{"a", "b"}, DataType::Double); });
+    add("Block::createDataArray(typed value overload, numbers stored as String)", [](File &f) { B0(f).createDataArray("fresh_a", "t", std::vector<double>{1.0, 2.0}, DataType::String); });
     add("DataArray::appendData(element type String into numeric array)", [](File &f) { DataArray a = arrayWhere(f, [](DataArray &x) { return x.dataType() == DataType::Double && x.dataExtent().size() == 1; }); std::string s = "x"; a.appendData(DataType::String, &s, NDSize({1}), 0); });
     add("DataArray::appendData(axis out of range)", [](File &f) { DataArray a = arrayWhere(f, [](DataArray &x) { return x.dataType() == DataType::Double && x.dataExtent().size() == 1; }); double v = 1; a.appendData(DataType::Double, &v, NDSize({1}), 3); });
     add("DataArray::appendData(count of another rank)", [](File &f) { DataArray a = arrayWhere(f, [](DataArray &x) { return x.dataType() == DataType::Double && x.dataExtent().size() == 1; }); double v[2] = {1, 2}; a.appendData(DataType::Double, v, NDSize({1, 2}), 0); });
